@@ -213,6 +213,7 @@ func runC11(r *Run) {
 		at := func(ms int) time.Time { return base.Add(time.Duration(ms) * time.Millisecond) }
 		var ops, outs []string
 		n := 20 + r.Rng.Intn(60)
+		live := 0 // distinct keys stored with the far expiry
 		for i := 0; i < n; i++ {
 			k := hkey(uint64(r.Rng.Intn(64))*1000 + uint64(i))
 			exp := 600000
@@ -224,10 +225,18 @@ func runC11(r *Run) {
 				break
 			}
 			c.Store(k, i, at(exp))
+			if exp == 600000 {
+				live++
+			}
 			ops = append(ops, fmt.Sprintf("s:%d:%d:%d:%d", k, i, exp, t))
 			outs = append(outs, "-")
 		}
-		time.Sleep(100 * time.Millisecond)
+		// wait for the cleaner's first pass after the short expiries (40 ms): event-driven, so that a cleaner goroutine that
+		// is scheduled late on a loaded machine is waited for (a fixed 100 ms was not enough at load 30); gives up after 15 s
+		time.Sleep(60 * time.Millisecond)
+		for dl := time.Now().Add(15 * time.Second); c.Len() > live && time.Now().Before(dl); {
+			time.Sleep(5 * time.Millisecond)
+		}
 		ops = append(ops, "gc:100", "l")
 		outs = append(outs, "-", fmt.Sprintf("len:%d", c.Len()))
 		c.Close()
@@ -455,5 +464,7 @@ func runC11(r *Run) {
 	// ------------------------------------------------------------------ parts 5 and 6
 	c11MapParts(r)
 	c11LruParts(r)
-	r.Finish("part 1: sequential histories (60..260 operations, or enough to overflow a shard) of store / get / flush / len on pkg/cache.Cache for configured sizes {-5, 0, 1, 63, 64, 100, 1024, 1025, 1100, 2048, 4097} with keys hashed into one hot shard and across shards, expiry already past / 25 ms ahead / far ahead, eviction victims read back after every store; sweep histories with a 15 ms cleaner; part 2: 8 goroutines x 1500 operations (store / get / flush / len / range, short expiries, 5 ms cleaner) over 120 keys in 3 shards with logical timestamps: every hit is checked for foreign, expired, overwritten or flushed values, every Len / Range count against the capacity; part 3: bursts of 6 simultaneous lookups of one just-expired key followed by get / range / len / store / get on it; part 4 (exported API only): lookups in flight across the expiry sweep: 2..3 writers storing values that live 20 us .. 3 ms and carry key, store number and expiry, 3..40 readers, the cache's own cleaner every 1 us .. 1 ms, rounds with 24-byte values under forced collections and more goroutines than processors, and rounds with 16 / 64 / 256 KiB values whose every cache line repeats the value's stamp: every hit must be a value some store wrote (not zero, not a mixture), stored under the looked-up key, with the expiry it was stored with, not expired when the lookup began; part 5 (pkg/concurrent_map.Map directly): sequential histories of Set / Get / Del / TestAndSet / RangeDo with setting and deleting callbacks / Flush / Len replayed on the model, and forced overlaps: the callback of a RangeDo pass starts another goroutine's Set of the visited key / Set of a new key into a full shard (on all 64 shards) / TestAndSet / Flush on the shard being visited and lingers 300 us; when both have returned every key and Len are read and must be what 'pass, then the other operation' or the opposite order leaves (reference and model list both): a value derived from an overwritten one, a flushed entry that is back, or Len above the capacity is a failure, a lost entry is not; part 6 (pkg/lru, pkg/concurrent_lru): sequential histories of Add / Get / Del / PopOldest / Clean / Flush / Len on LRU, ConcurrentLRU and ShardedLRU (1..8 shards, maxima 1..5, one operation in three on the previous operation's key) with the onEvict arguments recorded, replayed on the model; every hit must be the value most recently added under that key and not flushed, Len <= shards * max; concurrent histories (8 goroutines x 1500 operations, 1..64 shards) with logical timestamps checked per hit for foreign, overwritten or flushed values; parts 2-6 run a second time under the race detector")
+	// ------------------------------------------------------------------ part 7
+	c11FlushFillParts(r)
+	r.Finish("part 1: sequential histories (60..260 operations, or enough to overflow a shard) of store / get / flush / len on pkg/cache.Cache for configured sizes {-5, 0, 1, 63, 64, 100, 1024, 1025, 1100, 2048, 4097} with keys hashed into one hot shard and across shards, expiry already past / 25 ms ahead / far ahead, eviction victims read back after every store; sweep histories with a 15 ms cleaner; part 2: 8 goroutines x 1500 operations (store / get / flush / len / range, short expiries, 5 ms cleaner) over 120 keys in 3 shards with logical timestamps: every hit is checked for foreign, expired, overwritten or flushed values, every Len / Range count against the capacity; part 3: bursts of 6 simultaneous lookups of one just-expired key followed by get / range / len / store / get on it; part 4 (exported API only): lookups in flight across the expiry sweep: 2..3 writers storing values that live 20 us .. 3 ms and carry key, store number and expiry, 3..40 readers, the cache's own cleaner every 1 us .. 1 ms, rounds with 24-byte values under forced collections and more goroutines than processors, and rounds with 16 / 64 / 256 KiB values whose every cache line repeats the value's stamp: every hit must be a value some store wrote (not zero, not a mixture), stored under the looked-up key, with the expiry it was stored with, not expired when the lookup began; part 5 (pkg/concurrent_map.Map directly): sequential histories of Set / Get / Del / TestAndSet / RangeDo with setting and deleting callbacks / Flush / Len replayed on the model, and forced overlaps: the callback of a RangeDo pass starts another goroutine's Set of the visited key / Set of a new key into a full shard (on all 64 shards) / TestAndSet / Flush on the shard being visited and lingers 300 us; when both have returned every key and Len are read and must be what 'pass, then the other operation' or the opposite order leaves (reference and model list both): a value derived from an overwritten one, a flushed entry that is back, or Len above the capacity is a failure, a lost entry is not; part 6 (pkg/lru, pkg/concurrent_lru): sequential histories of Add / Get / Del / PopOldest / Clean / Flush / Len on LRU, ConcurrentLRU and ShardedLRU (1..8 shards, maxima 1..5, one operation in three on the previous operation's key) with the onEvict arguments recorded, replayed on the model; every hit must be the value most recently added under that key and not flushed, Len <= shards * max; concurrent histories (8 goroutines x 1500 operations, 1..64 shards) with logical timestamps checked per hit for foreign, overwritten or flushed values; part 7 (the capacity across flushes): sequential histories of 1..3 rounds of [fill with distinct live keys below / up to / beyond the capacity, Flush, lookups of flushed keys] and then more distinct keys than the capacity, for configured sizes {-7, 0, 1, 63, 64, 100, 700, 1024, 1025, 1087, 1100, 1500, 2048 (3000, 4097 thorough)}, keys placed round-robin / at random / into three hot shards, Len() <= max(size, 1024) checked after every store and the history replayed on the model with victims read back; concurrent rounds: 4 goroutines store 2x the capacity in distinct live keys after and during 1..3 flushes while Len() and the entry count of a Range are sampled against the capacity; parts 2-7 run a second time under the race detector")
 }
